@@ -360,7 +360,8 @@ def stamp_lines(s, lines):
             fn_ = "$f%d" % fi
             params.append("%s:ident" % fn_)
             args.append(m.group(2))
-            if re.search(r"\bR[XON]\d+\b", ty) and h("crate_path", s["path"], m.group(2)) % 2 == 0:
+            if re.search(r"\bR[XON]\d+\b", ty) and "Option" not in ty and h("crate_path", s["path"], m.group(2)) % 2 == 0:
+                # (not inside Option<..>: the pinned macro rebuilds that type from its text, where `$crate` cannot be spelled)
                 # helper types of this module spelled the way exported macros spell them: `$crate::path::T`
                 ty = re.sub(r"\b(R[XON]\d+)\b", lambda mm: "$crate::%s::%s" % (s["mod"].replace("()", ""), mm.group(1)), ty)
                 body.append("%s%s: %s," % (m.group(1), fn_, ty))
